@@ -206,8 +206,9 @@ def check_c06(run: Run, prog: Program) -> None:
         "reconstructions in inverse/__pow__ are accepted by every inheriting transformation class; (E19.act) the inverse undoes the action: "
         "TransformationTensor.inverse is interpreted with `inv` read as the adjugate of a symbolic matrix T, and applying it to t*x gives a non-zero polynomial multiple "
         "of x for points, lines and planes of the plane and of 3-space; composition is compatible with the action: (s * t) * x ~ s * (t * x) with s * t interpreted "
-        "through TransformationTensor.__apply__ on two symbolic matrices, and the composition divides by nothing but powers of the determinants. "
-        "NOT decided: powers, identity, collections."
+        "through TransformationTensor.__apply__ on two symbolic matrices, and the composition divides by nothing but powers of the determinants; "
+        "t**k for k = 0, 1, 2, 3, -1, -2 (TransformationTensor.__pow__ and Tensor.__pow__ interpreted) acts like k applications of t resp. undoes them. "
+        "NOT decided: collections."
     )
     n4 = kinds.rule_K4(run, prog)
     kinds.rule_K4m(run, prog)
